@@ -31,7 +31,7 @@ CLAIMS = {
               "'after every API call' over all histories; SQLite unique index; routing lookup; known finding F12.", "DESIGN.md §3 C08"),
  "C09": claim("for the IN-MEMORY back end, create_group_scoped_snapshot and restore_group_scoped_snapshot statement by statement over the whole store struct (extracted from the source; std adapter chains through opaque shims applied to the real closures): a snapshot holds, table by table and with their values, exactly this group's rows; every step of a rollback changes exactly one table (struct-update equality over all 17 fields: messages, dedup records, welcomes, key packages, signature / encryption keys untouched), drops exactly this group's rows, keeps every other row unchanged, and writes every snapshot row back under this group's key; the Nostr-id index stays exact (lemma); in mdk-core, rollback_to_epoch restores the snapshot found for this group and epoch, releases exactly the later ones and nothing else. For the SQLite back end NO proof: two bounded stand-ins (real SQLite, stated scope) compare a rollback with the state at snapshot time and with the memory back end.",
               "composition of the per-statement results into one theorem; the std adapter chains themselves (assumed contracts of the shim types); nesting of snapshots; the SQLite restore (SQL text: bounded only).", "DESIGN.md §3 C09"),
- "C10": claim("the IN-MEMORY back end against the storage contract the orchestration proofs assume (the reference model): every record table (dedup records, welcomes, processed welcomes, groups and their Nostr-id index, relays, per-epoch secrets, messages incl. the eviction step of save_message) is an upsert / lookup under exactly the documented key with a frame condition; invalidation / retry / pending selections choose exactly the records the contract names; both listing comparators equal the documented total orders (Kani, complete) and the memory listing and last_message use them; page windows and limit checks of BOTH back ends; the SQLite row decoders map each column to its field. The SQLite statements themselves: NO proof, 13 bounded stand-ins (real SQLite vs. real memory back end vs. the contract, stated scopes).",
+ "C10": claim("the IN-MEMORY back end against the storage contract the orchestration proofs assume (the reference model): every record table (dedup records, welcomes, processed welcomes, groups and their Nostr-id index, relays, per-epoch secrets, messages incl. the eviction step of save_message) is an upsert / lookup under exactly the documented key with a frame condition; invalidation / retry / pending selections choose exactly the records the contract names; both listing comparators equal the documented total orders (Kani, complete) and the memory listing and last_message use them; page windows and limit checks of BOTH back ends; the SQLite row decoders map each column to its field, and the values bound to the INSERTs of messages / dedup records / groups / secrets / processed welcomes are, position by position, the fields the column list names. The SQLite statements themselves: NO proof, 13 bounded stand-ins (real SQLite vs. real memory back end vs. the contract, stated scopes).",
               "SQL text (bounded only); capacity eviction of the LRU caches ('within the documented limits'); operation SEQUENCES (each operation is verified against the model separately; composition is by the model); std sort / iterator adapters.", "DESIGN.md §3 C10"),
  "C11": claim("the two restart mechanisms that are Rust code: ensure_hydrated's loop re-creates the snapshot queue from storage within the retention bound, keeping the most recent in order and releasing the rest; parse_snapshot_name gives a re-loaded snapshot the epoch, commit id and group of its name; the builder passes retention / TTL through and prunes by age at build(); is_better_candidate requests hydration of the group's queue first. The obligation that a re-loaded snapshot still carries its commit timestamp FAILS on the unchanged tree (known finding F16: race resolution does not survive a restart). Two bounded stand-ins (a history with two restarts on a database file; same-second snapshots read back in order).",
               "everything that lives in the database file (SQL, migrations: bounded only); the two-run comparison over histories; pending commits / proposals / key packages across restarts (OpenMLS storage provider).", "DESIGN.md §3 C11"),
